@@ -268,11 +268,12 @@ def lockstep_clause(model, rep, funcs):
         rep.instance("LOCK", f.loc())
         cats = [c for c in calls_in(f) if (dotted(c.func) or "") in ("np.concatenate", "pl.concat") and c.args and isinstance(c.args[0], ast.List)]
         orders = []
+        MCW = Matcher(f)
         for c in cats:
-            els = [norm_src(e) for e in c.args[0].elts]
+            els = [norm_src(MCW.expr(e)) for e in c.args[0].elts]  # `feat_self = self.features` ... `[feat_self, feat_other]` is `[self.features, other.features]`
             orders.append(tuple("self" if e.startswith("self") else "other" if e.startswith("other") else "?" for e in els))
         ok = len(cats) == 3 and all(o == ("self", "other") for o in orders)
-        kinds = [norm_src(c.args[0].elts[0]).split(".", 1)[1] if "." in norm_src(c.args[0].elts[0]) else "" for c in cats]
+        kinds = [norm_src(MCW.expr(c.args[0].elts[0])).split(".", 1)[1] if "." in norm_src(MCW.expr(c.args[0].elts[0])) else "" for c in cats]
         ok = ok and sorted(kinds) == sorted(["pos", "quaternion()", "features"])
         rep.ob("LOCK", f.anchor, f"{name} concatenates positions, quaternions and features with the same operand order (self, other)", ok,
                f"orders {orders}, parts {kinds}", node=f.node, fn=f, clause="1 lock-step", stmt=f"def {name} order")
@@ -448,8 +449,16 @@ def guards_clause(model, rep, funcs):
                 raises_after = True
         uses_setter = any(norm_src(n.node.targets[0]) == "self.features" for n in stores)
         direct = [n for n in stores if norm_src(n.node.targets[0]) == "self._features"]
-        lenguard = any(c.kind == "test" and "len(" in norm_src(c.node.test) and ("pos" in norm_src(c.node.test)) and
-                       any(isinstance(x, ast.Raise) for st in c.node.body for x in ast.walk(st)) for c in cfg.nodes)
+        MAP_ = Matcher(f)
+
+        def _len_test(c):
+            # a raising test that compares the row count of the feature table with the number of positions (temporaries expanded)
+            if c.kind != "test" or not any(isinstance(x, ast.Raise) for st in c.node.body for x in ast.walk(st)):
+                return False
+            t = norm_src(MAP_.expr(c.node.test))
+            return "len(" in t and "pos" in t
+
+        lenguard = any(_len_test(c) for c in cfg.nodes)
         ok = (uses_setter or (direct and lenguard)) and lenguard and not raises_after
         det = []
         if direct and not lenguard:
